@@ -14,7 +14,7 @@ def spec(th, seed):
     units.append(U('C05_alias.simd-aligned', 'mon/alias.cpp', 'plain', defs=['-DALIAS_PROP=5'] + ['-DGLM_FORCE_INTRINSICS', '-DGLM_FORCE_DEFAULT_ALIGNED_GENTYPES', '-mavx2', '-mfma']))
     if th:
         units.append(U('C05_alias.clang', 'mon/alias.cpp', 'clang', defs=['-DALIAS_PROP=5']))
-        units.append(U('C05_alias.simd-sse2.O0', 'mon/alias.cpp', 'plainO0', defs=['-DALIAS_PROP=5', '-DGLM_FORCE_INTRINSICS', '-DGLM_FORCE_DEFAULT_ALIGNED_GENTYPES', '-msse2'], scale=0.2))
+        units.append(U('C05_alias.simd-sse41.O0', 'mon/alias.cpp', 'plainO0', defs=['-DALIAS_PROP=5', '-DGLM_FORCE_INTRINSICS', '-DGLM_FORCE_DEFAULT_ALIGNED_GENTYPES', '-msse4.1'], scale=0.2))
     # constant-argument supplement (mon/constarg.cpp): scalar arguments as compile-time constants vs the same values read from volatiles; results must be bitwise identical
     units.append(U('C05_constarg', 'mon/constarg.cpp', 'plain', defs=['-DCONST_PROP=5']))
     if th:
